@@ -51,6 +51,17 @@ def run_with_S(prog: Program, fname: str, args: dict, S_override=None):
     return res, fr, info, fi
 
 
+def read_only_arguments(prog: Program, rep: Report, rule: str, funcs) -> None:
+    from ..purity import param_writes
+
+    for fi in funcs:
+        params = [q for q in fi.params if q != "self"]
+        if not params:
+            continue
+        w = param_writes(fi.node, params)
+        rep.check(rule, fi.qual, f"arguments {', '.join(params)} are read-only", not w, what_bad="; ".join(f"line {st.lineno}: `{short(st, 50)}` writes in place through {b} ({how}) - numpy hands out views for asarray/ravel/reshape/slices, so the caller's array changes and the next call sees other values" for st, b, how in w), what_ok="no in-place write", loc=fi.loc(w[0][0]) if w else fi.loc())
+
+
 def run(prog: Program, rep: Report, tier: str) -> None:
     rep.level = "other"
     rep.explanation = (
@@ -69,6 +80,9 @@ def run(prog: Program, rep: Report, tier: str) -> None:
     rep.rule("R12.2", "sdepth and s_stretch agree on the unstretched coordinate S for rho and w staggers", 4)
     rep.rule("R12.3", "end points: C(-1) = -1, C(0) = 0 for every Vstretching; z(-1,-1) = -h, z(0,0) = 0 for every Vtransform", 10)
     rep.rule("R12.4", "wiring: Cs_r/z_r use stagger rho, Cs_w/z_w use stagger w; unknown options raise", 8)
+
+    rep.rule("R12.5", "the vertical-grid functions and Grid's query methods never write through their array arguments (views of the bathymetry / level arrays stay read-only)", 8)
+    read_only_arguments(prog, rep, "R12.5", [fi for fi in prog.all_functions() if fi.module.name == prog.role_module["grid"] and ((fi.cls is None and fi.name in ("sdepth", "s_stretch", "z2s", "z2s_kernel", "sample3D", "sample3DUV", "trilinear")) or (fi.cls == prog.role_class["grid"] and fi.name != "__init__"))])
 
     # R12.1 (shared implementation with C02)
     sub = Report(pid="C12")
@@ -170,6 +184,9 @@ AUDIT = [
     Mut("zw-uses-rho", R, "            self.H, self.hc, self.Cs_w, stagger=\"w\", Vtransform=self.Vtransform", "            self.H, self.hc, self.Cs_w, stagger=\"rho\", Vtransform=self.Vtransform", rule="R12.4"),
     Mut("zr-uses-csw", R, "            self.H, self.hc, self.Cs_r, stagger=\"rho\", Vtransform=self.Vtransform", "            self.H, self.hc, self.Cs_w, stagger=\"rho\", Vtransform=self.Vtransform", rule="R12.4"),
     Mut("unknown-transform-silent", R, "    # else:\n    msg = \"Unknown Vtransform\"\n    raise ValueError(msg)", "    # else:\n    return None", rule="R12.4"),
+    Mut("sdepth-inplace-bathymetry", R, "        B = 1.0 + Hc / H\n        R2: Field = (A / B).reshape(outshape)", "        A *= H\n        H += Hc\n        A /= H\n        R2: Field = A.reshape(outshape)", rule="R12.5"),
+    Mut("depth-clips-argument", R, "        I: np.ndarray = X.round().astype(int) - self.i0\n        J: np.ndarray = Y.round().astype(int) - self.j0\n        R: ParticleArray = self.H[J, I]", "        np.clip(X, self.xmin, self.xmax, out=X)\n        I: np.ndarray = X.round().astype(int) - self.i0\n        J: np.ndarray = Y.round().astype(int) - self.j0\n        R: ParticleArray = self.H[J, I]", rule="R12.5"),
+    Mut("benign-sdepth-local-copy", R, "        B = 1.0 + Hc / H\n", "        B = 1.0 + Hc / H\n        B += 0.0\n", expect="silent"),
     Mut("z2s-weight", R, "A[n] = (zr[k] + Z[n]) / (zr[k] - zr[k - 1])", "A[n] = (zr[k] + Z[n]) / (zr[k] + zr[k - 1])", rule="R12.1"),
     Mut("z2s-bottom", R, "        elif k > 0:\n            K[n] = k", "        elif k > 1:\n            K[n] = k", rule="R12.1"),
     Mut("benign-S-form", R, "        S = -1.0 + (0.5 + np.arange(N)) / N  # Unstretched coordinates", "        S = (np.arange(N) + 0.5 - N) / N  # Unstretched coordinates", expect="silent"),
